@@ -110,9 +110,13 @@ def shapes(rng, quick):
         Shape("nested3", ("list", [("list", [("list", ints(2))]), ("list", ints(1))])),
         Shape("assoc-nested", ("assoc", [("x", ("list", ints(2))), ("y", 3)])),
         Shape("list-of-assoc", ("list", [("assoc", [("k", 1)]), 4])),
+        # EMPTY at the moment of the copy, grown afterwards through one name (seeded C06-6: a copy that
+        # returns the source array itself when there is nothing to copy)
+        Shape("list0", ("list", [])),
+        Shape("holds-empty", ("list", [("list", []), 1])),
     ]
     if not quick:
-        res += [Shape("list7", ("list", ints(7))), Shape("list0", ("list", [])),
+        res += [Shape("list7", ("list", ints(7))),
                 Shape("nested2b", ("list", [5, ("list", ints(3)), 6])),
                 Shape("assoc-nested2", ("assoc", [("x", ("assoc", [("u", 1)])), ("y", ("list", ints(2)))]))]
     return res
